@@ -33,6 +33,7 @@ fn decorated_reserved() -> Vec<String> {
     }
     // names people actually use for claims, incl. the specification's footer claim names (kid, wpk) and the
     // JWT header / payload vocabulary: none of them is reserved
+    v.extend(domains::hostile_texts());
     for u in ["https://example.com/claims/roles", "urn:example:claim:department-identifier-with-a-long-name", "x-custom-claim-name-that-is-longer-than-thirty-two-bytes"] {
         v.push(u.to_string());
     }
